@@ -49,6 +49,8 @@ def noisy_world(seed, n_chroms=3):
             world2.alt_polya_locus(w, "APA%d" % (ci + 1), chrom, last, "+-"[ci % 2], ext=(1200, 700, 2000)[ci % 3])
     # noise: reads with shifted junctions beyond tolerance, extended ends (novel models reaching beyond their gene)
     for g in list(w.genes):
+        if g.chrom == "chrE":
+            continue              # annotated, listed in the BAM header and without a single alignment: its reference transcripts still belong into the extended annotation
         for t in g.hidden[:1]:
             if t.kind == "no-strand-evidence":
                 continue          # this locus must stay without tails
